@@ -837,6 +837,9 @@ func handleMessage(peer *Peer, m protocol.Message) error {
 		if peer.Info != nil && m.Index >= uint32(numPieces(peer)) {
 			return ErrRange
 		}
+		if peer.Info == nil && m.Index >= maxPiecesUnknown {
+			return ErrRange
+		}
 		if !peer.bitmap.Get(int(m.Index)) {
 			peer.bitmap.Set(int(m.Index))
 			writeEvent(peer, TorPeerHave{peer, m.Index, true})
